@@ -17,7 +17,9 @@ type finding struct {
 	account int // for cap clauses: the offending account, -1 = global
 }
 
-func hasReorg(kind string) bool { return kind == "add" || kind == "reset" || kind == "promote" }
+func hasReorg(kind string) bool {
+	return kind == "add" || kind == "reset" || kind == "promote" || kind == "mreset"
+}
 
 func (w *world) oracle(v *view, o op) []finding {
 	var out []finding
@@ -28,6 +30,18 @@ func (w *world) oracle(v *view, o op) []finding {
 		bad("structure", "%s", s)
 	}
 	d := v.d
+	// the pool works on the state of the LAST head it was told about
+	for a, addr := range w.addrs {
+		if hn := w.chain.statedb.GetNonce(addr); d.StateNonces[addr] != hn {
+			bad("head-state", "the pool's state has nonce %d for account %d, the current head has %d", d.StateNonces[addr], a, hn)
+		}
+		if hb := w.chain.statedb.GetBalance(addr); d.StateBalances[addr].Cmp(hb) != 0 {
+			bad("head-state", "the pool's state has balance %s for account %d, the current head has %s", d.StateBalances[addr], a, hb)
+		}
+	}
+	if d.MaxGas != w.chain.head.GasLimit() {
+		bad("head-state", "the pool's gas limit is %d, the current head's is %d", d.MaxGas, w.chain.head.GasLimit())
+	}
 	// each pooled transaction is pending or queued but not both; `all` is their union
 	where := map[uint64]string{}
 	nP, nQ := 0, 0
